@@ -33,6 +33,11 @@ impl core::ops::Index<core::ops::RangeTo<usize>> for Str { type Output = [u8]; f
 pub trait ToStr { fn to_str(&self) -> Str; }
 impl ToStr for u32 { fn to_str(&self) -> Str { let mut v = *self; let mut d = [0u8; 10]; let mut k = 0; loop { d[k] = b'0' + (v % 10) as u8; k += 1; v /= 10; if v == 0 { break; } } let mut r = Str::new(); while k > 0 { k -= 1; r.b[r.n] = d[k]; r.n += 1; } r } }
 impl ToStr for char { fn to_str(&self) -> Str { let mut r = Str::new(); assert!((*self as u32) < 128); r.b[0] = *self as u8; r.n = 1; r } }
+impl ToStr for Str { fn to_str(&self) -> Str { *self } }
+impl ToStr for [u8] { fn to_str(&self) -> Str { let mut r = Str::new(); r.push_bytes(self); r } }
+/// `{:X}` of a u32: upper-case hexadecimal digits without padding
+pub trait ToHexUpper { fn to_hex_upper(&self) -> Str; }
+impl ToHexUpper for u32 { fn to_hex_upper(&self) -> Str { let mut v = *self; let mut d = [0u8; 8]; let mut k = 0; loop { let x = (v % 16) as u8; d[k] = if x < 10 { b'0' + x } else { b'A' + (x - 10) }; k += 1; v /= 16; if v == 0 { break; } } let mut r = Str::new(); while k > 0 { k -= 1; r.b[r.n] = d[k]; r.n += 1; } r } }
 pub trait AsciiNth { fn nth_ascii(&self, i: usize) -> Option<char>; }
 impl AsciiNth for str { fn nth_ascii(&self, i: usize) -> Option<char> { let b = self.as_bytes(); if i < b.len() { assert!(b[i] < 128); Some(b[i] as char) } else { None } } }
 //@ count N_NUM crates/rs1090/src/data/tail.rs "NumericMapping::new\("
@@ -57,27 +62,27 @@ impl AsciiNth for str { fn nth_ascii(&self, i: usize) -> Option<char> { let b = 
 //@ extract crates/rs1090/src/data/tail.rs static STRIDE_MAPPINGS
 //@ sub "-> Option<String>" "-> Option<Str>"
 //@ sub "STRIDE_MAPPINGS\.iter\(\)" "stride_mappings().iter()"
-//@ extract crates/rs1090/src/data/tail.rs fn stride_reg
+//@ extract crates/rs1090/src/data/tail.rs fn stride_reg rules=r1,r2,r3,r4,r4c
 //@ sub "-> Option<String>" "-> Option<Str>"
 //@ sub "NUMERIC_MAPPINGS\.iter\(\)" "numeric_mappings().iter()"
 //@ sub "\.to_string\(\)" ".to_str()"
-//@ extract crates/rs1090/src/data/tail.rs fn numeric_reg
+//@ extract crates/rs1090/src/data/tail.rs fn numeric_reg rules=r1,r2,r3,r4,r4c
 //@ sub "-> Option<String>" "-> Option<Str>"
-//@ extract crates/rs1090/src/data/tail.rs fn hl_reg
+//@ extract crates/rs1090/src/data/tail.rs fn hl_reg rules=r1,r2,r3,r4,r4c
 //@ sub "-> Option<String>" "-> Option<Str>"
 //@ sub "\.to_string\(\)" ".to_str()"
 //@ sub "LIMITED_ALPHABET\s*\.chars\(\)\s*\.nth\(" "LIMITED_ALPHABET.nth_ascii("
 //@ extract crates/rs1090/src/data/tail.rs fn ja_reg
 //@ sub "-> String" "-> Str"
 //@ sub "LIMITED_ALPHABET\.chars\(\)\.nth\(" "LIMITED_ALPHABET.nth_ascii("
-//@ extract crates/rs1090/src/data/tail.rs fn n_letters
+//@ extract crates/rs1090/src/data/tail.rs fn n_letters rules=r1,r2,r3,r4,r4c
 //@ sub "-> String" "-> Str"
 //@ sub "\.to_string\(\)" ".to_str()"
 //@ sub "LIMITED_ALPHABET\s*\.chars\(\)\s*\.nth\(" "LIMITED_ALPHABET.nth_ascii("
 //@ extract crates/rs1090/src/data/tail.rs fn n_letter
 //@ sub "-> Option<String>" "-> Option<Str>"
 //@ sub "\.to_string\(\)" ".to_str()"
-//@ extract crates/rs1090/src/data/tail.rs fn n_reg
+//@ extract crates/rs1090/src/data/tail.rs fn n_reg rules=r1,r2,r3,r4,r4c
 //@ sub "-> Option<String>" "-> Option<Str>"
 //@ extract crates/rs1090/src/data/tail.rs fn tail
 
@@ -101,6 +106,159 @@ fn c14_numeric_reg_total() { let h: u32 = kani::any(); let r = numeric_reg(h); k
 #[kani::proof]
 #[kani::unwind(40)]
 fn c14t_stride_reg_total_on_the_real_table() { let h: u32 = kani::any(); let r = stride_reg(h); kani::cover!(r.is_some()); }
+
+// ------------------------------------------------------------------------------------------------
+// C14 injectivity.  A function f is injective on its Some-domain iff it has a left inverse there.  For each
+// scheme an inverse is written from the published registration grammar (N-number blocks of 101711 / 10111 /
+// 951 / 35 with 601- and 25-letter sub-blocks; JA blocks of 22984 / 916 / 34; HL hexadecimal), or, for the
+// two table-driven schemes, as the generic parser over the SAME real table rows; the obligation
+// `inv(scheme(h)) == Some(h)` for EVERY u32 h is the injectivity proof of that scheme (no pairwise search).
+// Injectivity ACROSS schemes: each scheme's output falls in a syntactic class that is a function of the text
+// alone (`class_of`), and the five classes are pairwise different, so two schemes can never produce the same
+// text; `tail` returns the result of exactly one scheme (c14t_tail_is_the_first_scheme).
+fn lim_idx(c: u8) -> Option<u32> { let a = b"ABCDEFGHJKLMNPQRSTUVWXYZ"; let mut i = 0; while i < 24 { if a[i] == c { return Some(i as u32); } i += 1; } None }
+fn dig(c: u8) -> Option<u32> { if c >= b'0' && c <= b'9' { Some((c - b'0') as u32) } else { None } }
+/// value of a 0..=2 letter suffix inside a 601-block: "" -> 0, "A" -> 1, "AA" -> 2, "AB" -> 3 ... (25 per first letter)
+fn inv_letters(s: &Str, pos: usize) -> Option<u32> {
+    let k = s.n - pos;
+    if k == 0 { return Some(0); }
+    let a = lim_idx(s.b[pos])?;
+    if k == 1 { return Some(1 + a * 25); }
+    if k == 2 { let b = lim_idx(s.b[pos + 1])?; return Some(1 + a * 25 + 1 + b); }
+    None
+}
+fn inv_n(s: &Str) -> Option<u32> {
+    if s.n < 2 || s.n > 6 || s.b[0] != b'N' { return None; }
+    let d1 = dig(s.b[1])?;
+    if d1 == 0 { return None; }
+    let mut off = (d1 - 1) * 101711;
+    let mut pos = 2;
+    let sizes = [10111u32, 951, 35];
+    let mut lvl = 0;
+    while lvl < 3 {
+        if pos < s.n && dig(s.b[pos]).is_some() { off += 601 + dig(s.b[pos]).unwrap() * sizes[lvl]; pos += 1; lvl += 1; } else { break; }
+    }
+    if lvl < 3 { off += inv_letters(s, pos)?; }
+    else if pos == s.n { }
+    else if s.n - pos == 1 {
+        match dig(s.b[pos]) { Some(d) => off += 25 + d, None => off += 1 + lim_idx(s.b[pos])? }
+    } else { return None; }
+    Some(0xA00001 + off)
+}
+fn inv_ja(s: &Str) -> Option<u32> {
+    if s.n != 6 || s.b[0] != b'J' || s.b[1] != b'A' { return None; }
+    let d1 = dig(s.b[2])?; let d2 = dig(s.b[3])?;
+    let rest = match dig(s.b[4]) {
+        Some(d3) => d3 * 34 + match dig(s.b[5]) { Some(d4) => d4, None => 10 + lim_idx(s.b[5])? },
+        None => 340 + lim_idx(s.b[4])? * 24 + lim_idx(s.b[5])?,
+    };
+    Some(0x840000 + d1 * 22984 + d2 * 916 + rest)
+}
+fn hexv(c: u8) -> Option<u32> { if c >= b'0' && c <= b'9' { Some((c - b'0') as u32) } else if c >= b'A' && c <= b'F' { Some((c - b'A') as u32 + 10) } else { None } }
+fn inv_hl(s: &Str) -> Option<u32> {
+    if s.n != 6 || s.b[0] != b'H' || s.b[1] != b'L' { return None; }
+    let v = hexv(s.b[2])? * 4096 + hexv(s.b[3])? * 256 + hexv(s.b[4])? * 16 + hexv(s.b[5])?;
+    if v >= 0x7200 && v <= 0x7799 { Some(v - 0x7200 + 0x71BA00) }
+    else if v >= 0x8000 && v <= 0x8099 { Some(v - 0x8000 + 0x71C000) }
+    else if v >= 0x8200 && v <= 0x8299 { Some(v - 0x8200 + 0x71C200) }
+    else { None }
+}
+/// generic parser over the real numeric table: the registration is the template with its last k characters
+/// replaced by the k decimal digits (no leading zero unless the number is 0) of `first + (address - start)`
+fn inv_numeric(s: &Str) -> Option<u32> {
+    let t = numeric_mappings();
+    let mut mi = 0;
+    while mi < t.len() {
+        let m = &t[mi];
+        if s.n == m.template.n {
+            let mut k = 1;
+            while k <= s.n && k <= 9 {
+                let mut okp = true; let mut i = 0;
+                while i < s.n - k { if s.b[i] != m.template.b[i] { okp = false; } i += 1; }
+                let mut v: u32 = 0; let mut okd = true; let mut j = s.n - k;
+                while j < s.n { match dig(s.b[j]) { Some(d) => v = v * 10 + d, None => okd = false } j += 1; }
+                let lead_ok = k == 1 || s.b[s.n - k] != b'0';
+                if okp && okd && lead_ok && v >= m.first && v - m.first <= m.end - m.start { return Some(m.start + (v - m.first)); }
+                k += 1;
+            }
+        }
+        mi += 1;
+    }
+    None
+}
+/// generic parser over the real stride table: prefix, then three characters of the row's alphabet
+fn inv_stride(s: &Str) -> Option<u32> {
+    let t = stride_mappings();
+    let mut mi = 0;
+    while mi < t.len() {
+        let m = &t[mi];
+        if s.n == m.prefix.n + 3 {
+            let mut okp = true; let mut i = 0;
+            while i < m.prefix.n { if s.b[i] != m.prefix.b[i] { okp = false; } i += 1; }
+            if okp {
+                let p = m.prefix.n;
+                let f = |c: u8| -> Option<u32> { let mut q = 0; while q < m.alphabet.n { if m.alphabet.b[q] == c { return Some(q as u32); } q += 1; } None };
+                if let (Some(i1), Some(i2), Some(i3)) = (f(s.b[p]), f(s.b[p + 1]), f(s.b[p + 2])) {
+                    let o = i1 * m.s1 + i2 * m.s2 + i3;
+                    if o >= m.offset { let h = m.start + (o - m.offset); if h <= m.end { return Some(h); } }
+                }
+            }
+        }
+        mi += 1;
+    }
+    None
+}
+#[derive(PartialEq, Clone, Copy, Debug)]
+enum Class { N, Ja, Hl, Numeric, Stride, Other }
+/// syntactic class of a registration text: a function of the text alone
+fn class_of(s: &Str) -> Class {
+    let mut dash = false; let mut i = 0; while i < s.n { if s.b[i] == b'-' { dash = true; } i += 1; }
+    if s.n == 0 { return Class::Other; }
+    let last = s.b[s.n - 1];
+    if dash { return if last >= b'0' && last <= b'9' { Class::Numeric } else if last >= b'A' && last <= b'Z' { Class::Stride } else { Class::Other }; }
+    if s.n >= 2 && s.b[0] == b'N' && s.b[1] >= b'1' && s.b[1] <= b'9' { return Class::N; }
+    if s.n >= 2 && s.b[0] == b'J' && s.b[1] == b'A' { return Class::Ja; }
+    if s.n >= 2 && s.b[0] == b'H' && s.b[1] == b'L' { return Class::Hl; }
+    Class::Other
+}
+// ------------------------------------------------------------------------------------------------
+// C14 country consistency: the block the address-block table assigns to the address (FIRST row of
+// patterns.json containing it, as in aircraft_information) lists the text's national prefix.
+//@ country-table
+fn starts_with(s: &Str, p: &str) -> bool { let b = p.as_bytes(); if b.len() > s.n { return false; } let mut i = 0; while i < b.len() { if s.b[i] != b[i] { return false; } i += 1; } true }
+/// n_reg is injective (left inverse from the N-number grammar), its texts are in class N, at most 6 characters
+#[kani::proof]
+#[kani::unwind(27)]
+fn c14_n_reg_injective_and_classified() { let h: u32 = kani::any(); if let Some(s) = n_reg(h) { assert!(inv_n(&s) == Some(h)); assert!(class_of(&s) == Class::N); } kani::cover!(n_reg(h).is_some()); }
+#[kani::proof]
+#[kani::unwind(27)]
+fn c14_ja_reg_injective_and_classified() { let h: u32 = kani::any(); if let Some(s) = ja_reg(h) { assert!(inv_ja(&s) == Some(h)); assert!(class_of(&s) == Class::Ja); } kani::cover!(ja_reg(h).is_some()); }
+#[kani::proof]
+#[kani::unwind(27)]
+fn c14_hl_reg_injective_and_classified() { let h: u32 = kani::any(); if let Some(s) = hl_reg(h) { assert!(inv_hl(&s) == Some(h)); assert!(class_of(&s) == Class::Hl); } kani::cover!(hl_reg(h).is_some()); }
+#[kani::proof]
+#[kani::unwind(27)]
+fn c14_numeric_reg_injective_and_classified() { let h: u32 = kani::any(); if let Some(s) = numeric_reg(h) { assert!(inv_numeric(&s) == Some(h)); assert!(class_of(&s) == Class::Numeric); } kani::cover!(numeric_reg(h).is_some()); }
+#[kani::proof]
+#[kani::unwind(40)]
+fn c14t_stride_reg_injective_and_classified() { let h: u32 = kani::any(); if let Some(s) = stride_reg(h) { assert!(inv_stride(&s) == Some(h)); assert!(class_of(&s) == Class::Stride); } kani::cover!(stride_reg(h).is_some()); }
+/// country consistency per scheme, every u32 (a registration is only ever returned inside a block of the table
+/// whose pattern lists its prefix)
+#[kani::proof]
+#[kani::unwind(27)]
+fn c14_n_reg_country_consistent() { let h: u32 = kani::any(); if let Some(s) = n_reg(h) { assert!(country_consistent(h, &s)); } kani::cover!(n_reg(h).is_some()); }
+#[kani::proof]
+#[kani::unwind(27)]
+fn c14_ja_reg_country_consistent() { let h: u32 = kani::any(); if let Some(s) = ja_reg(h) { assert!(country_consistent(h, &s)); } kani::cover!(ja_reg(h).is_some()); }
+#[kani::proof]
+#[kani::unwind(27)]
+fn c14_hl_reg_country_consistent() { let h: u32 = kani::any(); if let Some(s) = hl_reg(h) { assert!(country_consistent(h, &s)); } kani::cover!(hl_reg(h).is_some()); }
+#[kani::proof]
+#[kani::unwind(27)]
+fn c14_numeric_reg_country_consistent() { let h: u32 = kani::any(); if let Some(s) = numeric_reg(h) { assert!(country_consistent(h, &s)); } kani::cover!(numeric_reg(h).is_some()); }
+#[kani::proof]
+#[kani::unwind(40)]
+fn c14t_stride_reg_country_consistent() { let h: u32 = kani::any(); if let Some(s) = stride_reg(h) { assert!(country_consistent(h, &s)); } kani::cover!(stride_reg(h).is_some()); }
 /// vacuity canary: must FAIL
 #[kani::proof]
 #[kani::unwind(27)]
